@@ -395,4 +395,55 @@ theorem entriesN_steps (k : Nat) (i : Inst) : ∀ e ∈ entriesN k i, i.steps + 
       rw [callStep_steps] at this
       omega
 
+/-- what an operation does to its own instance depends on that instance alone -/
+theorem apply_local (w w' : List Inst) (op : Op) (h : w[op.target]? = w'[op.target]?) :
+    (apply w op)[op.target]? = (apply w' op)[op.target]? := by
+  cases op with
+  | step i args =>
+    simp only [Op.target] at h ⊢
+    simp only [apply]
+    rw [← h]
+    cases hx : w[i]? with
+    | none => simp [hx, ← h]
+    | some x =>
+      have h' : w'[i]? = some x := by rw [← h]; exact hx
+      have hi := (List.getElem?_eq_some_iff.mp hx).1
+      have hi' := (List.getElem?_eq_some_iff.mp h').1
+      simp [hi, hi']
+  | run i fuel =>
+    simp only [Op.target] at h ⊢
+    simp only [apply]
+    rw [← h]
+    cases hx : w[i]? with
+    | none => simp [hx, ← h]
+    | some x =>
+      have h' : w'[i]? = some x := by rw [← h]; exact hx
+      have hi := (List.getElem?_eq_some_iff.mp hx).1
+      have hi' := (List.getElem?_eq_some_iff.mp h').1
+      cases hr : runModel fuel x with
+      | none => simp [hx, h', hr]
+      | some p => simp [hr, hi, hi']
+  | rearm i k =>
+    simp only [Op.target] at h ⊢
+    simp only [apply]
+    rw [← h]
+    cases hx : w[i]? with
+    | none => simp [hx, ← h]
+    | some x =>
+      have h' : w'[i]? = some x := by rw [← h]; exact hx
+      have hi := (List.getElem?_eq_some_iff.mp hx).1
+      have hi' := (List.getElem?_eq_some_iff.mp h').1
+      simp [hi, hi']
+  | halt i =>
+    simp only [Op.target] at h ⊢
+    simp only [apply]
+    rw [← h]
+    cases hx : w[i]? with
+    | none => simp [hx, ← h]
+    | some x =>
+      have h' : w'[i]? = some x := by rw [← h]; exact hx
+      have hi := (List.getElem?_eq_some_iff.mp hx).1
+      have hi' := (List.getElem?_eq_some_iff.mp h').1
+      simp [hi, hi']
+
 end Mesa.Steps
